@@ -17,6 +17,7 @@ import (
 
 var vrfEntries = map[string]func(){
 	"VrfC17PeerRemove": VrfC17PeerRemove,
+	"VrfC17RemoveManyPins": VrfC17RemoveManyPins,
 	"VrfC17Removed":    VrfC17Removed,
 }
 
@@ -52,6 +53,46 @@ func VrfC17PeerRemove() {
 	vrf_assert(rm == 1, "C17.remove.one-consensus-removal")
 	vrf_assert((err == nil) == !cons.rmFails, "C17.remove.ack-implies-removed")
 	vrf_reach("C17.remove.end")
+}
+
+// VrfC17RemoveManyPins: the removed peer holds several pins and one of them
+// cannot be re-homed (its expiry has passed): the others are re-homed all the
+// same, whatever the order in which the state lists them, before the removal.
+func VrfC17RemoveManyPins() {
+	n := 2
+	now := vrf_now()
+	failed := vrfPeerNames[n-1]
+	cons := &vrfConsensus{}
+	base := vrfSymbolicMonitor(n, "freespace")
+	vrf_assume(vrf_and(base.states[0].healthy, base.states[0].numeric)) // a healthy survivor to re-home to
+	c := vrfNewCluster(n, cons, base)
+	c.id = peer.ID("self")
+	cons.peers = append([]peer.ID{c.id}, vrfPeerNames[:n]...)
+	vrf_assume(!c.config.FollowerMode)
+	stuck := api.PinCid(vrfCid(0)) // cannot be re-pinned: expired
+	stuck.ReplicationFactorMin, stuck.ReplicationFactorMax = 1, 1
+	stuck.Allocations = []peer.ID{failed}
+	stuck.ExpireAt = time.Unix(0, now-3600*vrfSecond)
+	movable := api.PinCid(vrfCid(1))
+	movable.ReplicationFactorMin, movable.ReplicationFactorMax = 1, 1
+	movable.Allocations = []peer.ID{failed}
+	if vrf_choice("stuck_pin_listed_first", 2) == 1 {
+		cons.pins = append(cons.pins, stuck, movable)
+	} else {
+		cons.pins = append(cons.pins, movable, stuck)
+	}
+	err := c.PeerRemove(c.ctx, failed)
+	vrf_assert(err == nil, "C17.remove-many.removed")
+	rehomed := 0
+	for _, e := range cons.log {
+		vrf_assert(!e.unpin, "C17.remove-many.never-unpins")
+		if e.pin.Cid.Equals(vrfCid(1)) {
+			rehomed++
+			vrf_assert(len(e.pin.Allocations) == 1 && e.pin.Allocations[0] == vrfPeerNames[0], "C17.remove-many.rehomed-to-the-survivor")
+		}
+	}
+	vrf_assert(rehomed == 1, "C17.remove-many.every-movable-pin-rehomed")
+	vrf_reach("C17.remove-many.end")
 }
 
 // ---- the remaining components Shutdown touches
